@@ -1,11 +1,259 @@
+//! C14: manifests, CRLs and signed objects are refreshed in time with rising
+//! numbers.
+
+use std::collections::BTreeMap;
 use crate::history::Runner;
+use crate::hooks;
+use crate::objsets::{self, KeySet};
 use crate::rp::RpResult;
+use crate::seams;
+
+#[derive(Clone, Debug)]
+struct SetSnap {
+    number: u64,
+    next_update: i64,
+    manifest_hash: String,
+    /// name -> (serial, expires, content hash)
+    products: BTreeMap<String, (String, i64, String)>,
+}
 
 #[derive(Default)]
 pub struct State {
     pub last_entitlement_change: usize,
+    /// (ca, rcn, key) -> snapshot at the previous instant.
+    snaps: BTreeMap<(String, String, String), SetSnap>,
+    /// (ca, rcn, key) -> highest number seen.
+    numbers: BTreeMap<(String, String, String), u64>,
+    pub due_reissues: u64,
+    pub not_due_unchanged: u64,
+    pub renewals: u64,
 }
 
-pub fn instant(_r: &mut Runner) { }
-pub fn after_task(_r: &mut Runner) { }
-pub fn at_caught_up(_r: &mut Runner, _repo_inst: usize, _rpres: &RpResult) { }
+fn snap(set: &KeySet) -> SetSnap {
+    SetSnap {
+        number: set.number,
+        next_update: set.next_update,
+        manifest_hash: crate::util::sha256_hex(&set.manifest),
+        products: set.products.iter().map(|(name, p)| {
+            (
+                name.clone(),
+                (p.serial.clone(), p.expires, crate::util::sha256_hex(&p.bytes))
+            )
+        }).collect(),
+    }
+}
+
+fn collect(r: &Runner) -> BTreeMap<(String, String, String), (SetSnap, String)> {
+    let mut out = BTreeMap::new();
+    for ca in r.model.cas.values() {
+        if !r.world.inst(ca.inst).is_up() {
+            continue
+        }
+        let classes = hooks::with_faults_suspended(|| {
+            objsets::read(r.world.inst(ca.inst).rt(), &ca.name)
+        });
+        for class in classes {
+            for set in &class.sets {
+                out.insert(
+                    (ca.name.clone(), class.rcn.clone(), set.key_id.clone()),
+                    (snap(set), set.role.clone())
+                );
+            }
+        }
+    }
+    out
+}
+
+/// Records the state of all sets (called after every operation so that the
+/// next maintenance run has a "before").
+pub fn instant(r: &mut Runner) {
+    let now = collect(r);
+    check_numbers(r, &now);
+    r.ext.c14.snaps = now.into_iter().map(|(k, (s, _))| (k, s)).collect();
+}
+
+fn check_numbers(
+    r: &mut Runner,
+    now: &BTreeMap<(String, String, String), (SetSnap, String)>,
+) {
+    for (key, (snap, _)) in now {
+        let prev = r.ext.c14.numbers.get(key).copied().unwrap_or(0);
+        if snap.number < prev {
+            r.violation(
+                "C14", "number_decreased",
+                format!(
+                    "CA {} class {} key {}: manifest/CRL number went from \
+                     {prev} to {}", key.0, key.1, key.2, snap.number
+                )
+            );
+        }
+        r.ext.c14.numbers.insert(key.clone(), std::cmp::max(prev, snap.number));
+    }
+}
+
+/// Judges the task that just ran if it was a maintenance run.
+pub fn after_task(r: &mut Runner) {
+    let task = hooks::state().last_task.clone();
+    let now = collect(r);
+    check_numbers(r, &now);
+    let now_secs = seams::now_secs();
+    let timing = r.world.inst(0).cfg.timing.clone();
+    if task.ends_with("all_cas_republish_if_needed") {
+        let margin = timing.publish_hours_before_next as i64 * 3600;
+        // Which classes had something due?
+        let mut class_due: BTreeMap<(String, String), bool> = BTreeMap::new();
+        for (key, before) in &r.ext.c14.snaps {
+            let due = now_secs > before.next_update - margin;
+            let entry = class_due.entry((key.0.clone(), key.1.clone()))
+                .or_insert(false);
+            *entry = *entry || due;
+        }
+        let before_all = r.ext.c14.snaps.clone();
+        for (key, before) in &before_all {
+            let Some((after, role)) = now.get(key) else { continue };
+            let due = now_secs > before.next_update - margin;
+            if due {
+                r.ext.c14.due_reissues += 1;
+                if after.number != before.number + 1 {
+                    r.violation(
+                        "C14", "due_not_reissued",
+                        format!(
+                            "CA {} class {} key {} ({role}): next update {} \
+                             is within {} h of now {} but the republish run \
+                             left number {} -> {}",
+                            key.0, key.1, key.2, before.next_update,
+                            timing.publish_hours_before_next, now_secs,
+                            before.number, after.number
+                        )
+                    );
+                }
+                else if after.next_update <= now_secs {
+                    r.violation(
+                        "C14", "reissued_already_stale",
+                        format!(
+                            "CA {} class {} key {}: re-issued with next \
+                             update {} <= now {now_secs}",
+                            key.0, key.1, key.2, after.next_update
+                        )
+                    );
+                }
+            }
+            else if !class_due.get(&(key.0.clone(), key.1.clone()))
+                .copied().unwrap_or(false)
+            {
+                r.ext.c14.not_due_unchanged += 1;
+                if after.manifest_hash != before.manifest_hash {
+                    r.violation(
+                        "C14", "not_due_changed",
+                        format!(
+                            "CA {} class {} key {}: nothing was due in this \
+                             class but the republish run changed the \
+                             manifest (number {} -> {})",
+                            key.0, key.1, key.2, before.number, after.number
+                        )
+                    );
+                }
+            }
+            if before.products.keys().collect::<Vec<_>>()
+                != after.products.keys().collect::<Vec<_>>()
+            {
+                r.violation(
+                    "C14", "republish_changed_payloads",
+                    format!(
+                        "CA {} class {} key {}: the republish run changed \
+                         the set of products", key.0, key.1, key.2
+                    )
+                );
+            }
+        }
+    }
+    else if task.ends_with("all_cas_renew_objects_if_needed") {
+        let before_all = r.ext.c14.snaps.clone();
+        for (key, before) in &before_all {
+            let Some((after, _role)) = now.get(key) else { continue };
+            if before.products.keys().collect::<Vec<_>>()
+                != after.products.keys().collect::<Vec<_>>()
+            {
+                r.violation(
+                    "C14", "renew_changed_payloads",
+                    format!(
+                        "CA {} class {} key {}: the renewal run changed the \
+                         set of products: {:?} -> {:?}",
+                        key.0, key.1, key.2,
+                        before.products.keys().collect::<Vec<_>>(),
+                        after.products.keys().collect::<Vec<_>>()
+                    )
+                );
+                continue
+            }
+            for (name, (serial, expires, hash)) in &before.products {
+                let weeks = if name.ends_with(".roa") {
+                    timing.roa_reissue_weeks_before
+                } else if name.ends_with(".asa") {
+                    timing.aspa_reissue_weeks_before
+                } else if name.starts_with("ROUTER-") {
+                    timing.bgpsec_reissue_weeks_before
+                } else {
+                    continue // child CA certificates are the child's job
+                };
+                let threshold = now_secs + weeks as i64 * 7 * 86400;
+                let Some((aserial, aexpires, ahash)) = after.products.get(name)
+                else { continue };
+                if *expires < threshold {
+                    r.ext.c14.renewals += 1;
+                    if aserial == serial || aexpires <= expires {
+                        r.violation(
+                            "C14", "expiring_not_renewed",
+                            format!(
+                                "CA {} class {}: {name} expires at {expires}, \
+                                 within {weeks} week(s) of now {now_secs}, \
+                                 but the renewal run left it as it was",
+                                key.0, key.1
+                            )
+                        );
+                    }
+                }
+                else if ahash != hash {
+                    r.violation(
+                        "C14", "not_expiring_renewed",
+                        format!(
+                            "CA {} class {}: {name} expires at {expires}, \
+                             not within {weeks} week(s) of now {now_secs}, \
+                             but the renewal run replaced it",
+                            key.0, key.1
+                        )
+                    );
+                }
+            }
+        }
+    }
+    r.ext.c14.snaps = now.into_iter().map(|(k, (s, _))| (k, s)).collect();
+}
+
+/// At quiescence: numbers on the decoded manifest and CRL agree, validity
+/// windows contain the present (the RP walk reports stale ones).
+pub fn at_caught_up(r: &mut Runner, _repo_inst: usize, rpres: &RpResult) {
+    for pp in &rpres.pub_points {
+        if pp.mft_number != pp.crl_number {
+            r.violation(
+                "C14", "numbers_disagree",
+                format!(
+                    "{}: manifest number {} but CRL number {}",
+                    pp.mft_uri, pp.mft_number, pp.crl_number
+                )
+            );
+        }
+    }
+    // Stale manifests/CRLs and expired signed objects or router
+    // certificates. Child CA certificates are renewed at the child's
+    // request, not by the maintenance tasks; they are not judged here.
+    for issue in &rpres.issues {
+        let ca_cert = issue.contains("invalid CA certificate");
+        if !ca_cert && (
+            issue.contains("stale") || issue.contains("in the future")
+            || issue.contains("expired")
+        ) {
+            r.violation("C14", "validity_window", issue.clone());
+        }
+    }
+}
